@@ -113,9 +113,16 @@ def measure_common(m, obj, psi, tab, den, sites_n, env=False):
         vals.append(hm.gi(num))
     if terms and psi.bc != 'segment':
         strength = [1.0 + 0.5 * k for k in range(len(terms))]
-        got, _ = hm.quiet(obj.expectation_value_terms_sum, TermList(terms, strength))
+        try:
+            got, _ = hm.quiet(obj.expectation_value_terms_sum, TermList(terms, strength))
+        except Exception as e:  # an exception of the code under test is an observable result
+            rp.violation('expectation_value_terms_sum', 'exception', dict(error=repr(e), terms=repr(terms)[:400]),
+                         error=type(e).__name__, L=psi.L)
+            m.ok = False
+            got = None
         # (documented: the MPSEnvironment variant does not include the norms of bra and ket)
-        m.cmp('expectation_value_terms_sum', got, sum(s * v for s, v in zip(strength, vals)), 1.0 if env else den, rtol=1e-9)
+        if got is not None:
+            m.cmp('expectation_value_terms_sum', got, sum(s * v for s, v in zip(strength, vals)), 1.0 if env else den, rtol=1e-9)
     # ---- correlation functions
     for key, mat in items(tab['corr']):
         n1, n2, st, sof = key
